@@ -30,11 +30,116 @@ type State struct {
 	ret   []Val
 	calls map[string][][]Val // results of the calls made so far on this path, by callee name (for origin())
 	defers []*ast.DeferStmt
+	decs  map[*Term]bool // path-condition entries that are branch decisions (if / switch), as opposed to assumed facts
+}
+
+// decide records a branch decision: like assume, and remembers which entries are decisions (used to merge the
+// paths of an unrolled loop body at the end of each iteration).
+func (s *State) decide(t *Term) {
+	mark := len(s.pc)
+	s.assume(t)
+	if len(s.pc) > mark {
+		nd := make(map[*Term]bool, len(s.decs)+len(s.pc)-mark)
+		for k := range s.decs {
+			nd[k] = true
+		}
+		for _, d := range s.pc[mark:] {
+			nd[d] = true
+		}
+		s.decs = nd
+	}
+}
+
+// mergeMany joins the states that left one iteration of an unrolled loop body (normal end or continue).
+// They all extend the same prefix pc[:basePC]; their branch decisions are mutually exclusive, so the joined state
+// is an if-then-else over the decisions. Returns nil when a state has no recorded decision (then nothing is merged).
+func (ex *Exec) mergeMany(sts []*State, basePC int) *State {
+	if len(sts) < 2 {
+		return nil
+	}
+	guards := make([]*Term, len(sts))
+	facts := make([][]*Term, len(sts))
+	for i, s := range sts {
+		if len(s.pc) < basePC || s.ctl != ctlNormal || len(s.defers) != len(sts[0].defers) {
+			return nil
+		}
+		var ds []*Term
+		for _, t := range s.pc[basePC:] {
+			if s.decs[t] {
+				ds = append(ds, t)
+			} else {
+				facts[i] = append(facts[i], t)
+			}
+		}
+		if len(ds) == 0 {
+			return nil
+		}
+		guards[i] = And(ds...)
+	}
+	m := &State{store: map[*Cell]Val{}, ctl: ctlNormal, defers: sts[0].defers, decs: sts[0].decs}
+	m.pc = append(m.pc, sts[0].pc[:basePC]...)
+	if o := Or(guards...); !o.IsTrue() {
+		m.pc = append(m.pc, o)
+	}
+	for i := range sts {
+		if len(facts[i]) > 0 {
+			m.pc = append(m.pc, Imp(guards[i], And(facts[i]...)))
+		}
+	}
+	last := len(sts) - 1
+	for k, v0 := range sts[0].store {
+		same, all := true, true
+		for _, s := range sts[1:] {
+			v, ok := s.store[k]
+			if !ok {
+				all = false
+				break
+			}
+			if !sameVal(v, v0) {
+				same = false
+			}
+		}
+		if !all {
+			continue
+		}
+		if same {
+			m.store[k] = v0
+			continue
+		}
+		v := sts[last].store[k]
+		for i := last - 1; i >= 0; i-- {
+			v = mergeVal(guards[i], sts[i].store[k], v)
+		}
+		m.store[k] = v
+	}
+	if sts[0].ok != nil {
+		v := sts[last].ok
+		for i := last - 1; i >= 0; i-- {
+			v = Ite(guards[i], sts[i].ok, v)
+		}
+		m.ok = v
+	}
+	for _, src := range sts {
+		for k, v := range src.calls {
+			for _, r := range v {
+				dup := false
+				for _, e := range m.calls[k] {
+					if len(e) > 0 && len(r) > 0 && sameVal(e[len(e)-1], r[len(r)-1]) && sameVal(e[0], r[0]) {
+						dup = true
+					}
+				}
+				if !dup {
+					m.recordCall(k, r)
+				}
+			}
+		}
+	}
+	return m
 }
 
 func (s *State) clone() *State {
 	n := &State{store: make(map[*Cell]Val, len(s.store)), pc: append([]*Term{}, s.pc...), ok: s.ok, ctl: s.ctl, ret: s.ret,
-		defers: append([]*ast.DeferStmt{}, s.defers...)}
+		defers: append([]*ast.DeferStmt{}, s.defers...), decs: s.decs}
 	for k, v := range s.store {
 		n.store[k] = v
 	}
@@ -1279,9 +1384,9 @@ func (ex *Exec) execIf(st *State, n *ast.IfStmt) []*State {
 	}
 	basePC := len(st.pc)
 	ts := st.clone()
-	ts.assume(c)
+	ts.decide(c)
 	es := st.clone()
-	es.assume(Not(c))
+	es.decide(Not(c))
 	touts := ex.execStmtSafe(ts, n.Body)
 	var eouts []*State
 	if n.Else != nil {
@@ -1290,7 +1395,7 @@ func (ex *Exec) execIf(st *State, n *ast.IfStmt) []*State {
 		eouts = []*State{es}
 	}
 	// merge when both sides produced exactly one normal state
-	if len(touts) == 1 && len(eouts) == 1 && touts[0].ctl == ctlNormal && eouts[0].ctl == ctlNormal {
+	if len(touts) == 1 && len(eouts) == 1 && touts[0].ctl == ctlNormal && eouts[0].ctl == ctlNormal && len(touts[0].defers) == len(eouts[0].defers) {
 		return []*State{ex.mergeStates(c, touts[0], eouts[0], basePC)}
 	}
 	var out []*State
@@ -1301,7 +1406,7 @@ func (ex *Exec) execIf(st *State, n *ast.IfStmt) []*State {
 }
 
 func (ex *Exec) mergeStates(c *Term, a, b *State, basePC int) *State {
-	m := &State{store: map[*Cell]Val{}, ctl: ctlNormal}
+	m := &State{store: map[*Cell]Val{}, ctl: ctlNormal, decs: a.decs, defers: a.defers}
 	m.pc = append(m.pc, a.pc[:basePC]...)
 	var ea, eb []*Term
 	for _, t := range a.pc[basePC:] {
@@ -1378,7 +1483,7 @@ func (ex *Exec) execSwitch(st *State, n *ast.SwitchStmt) []*State {
 			continue
 		}
 		ts := cur.clone()
-		ts.assume(c)
+		ts.decide(c)
 		for _, o := range ex.execBlock([]*State{ts}, cl.Body) {
 			if o.ctl == ctlBreak {
 				o.ctl = ctlNormal
@@ -1389,7 +1494,7 @@ func (ex *Exec) execSwitch(st *State, n *ast.SwitchStmt) []*State {
 			return out
 		}
 		cur = cur.clone()
-		cur.assume(Not(c))
+		cur.decide(Not(c))
 	}
 	if defaultClause != nil {
 		for _, o := range ex.execBlock([]*State{cur}, defaultClause.Body) {
@@ -1623,16 +1728,20 @@ func (ex *Exec) ghostAsserts(states []*State, anchor string, pos token.Pos, node
 			}
 			if a.Kind == "snap" {
 				// ghost snapshot: the value of the expression at this point, under a name later clauses can use
-				s.store[ex.ghostCell(a.Var)] = ce.eval(a.Expr)
+				s.store[ex.ghostCell(a.Var)] = detach(ce.eval(a.Expr))
 				continue
 			}
 			g := ce.evalBool(a.Expr)
 			savedLem, savedRev := ex.lemmas, ex.reveal
-			if len(a.Lemmas) > 0 || len(a.Reveal) > 0 {
+			if len(a.Lemmas) > 0 || len(a.Reveal) > 0 || a.Only {
 				ex.lemmas = append(append([]string{}, ex.lemmas...), a.Lemmas...)
 				nr := map[string]bool{}
 				for k := range ex.reveal {
 					nr[k] = true
+				}
+				if a.Only {
+					ex.lemmas = append([]string{}, a.Lemmas...)
+					nr = map[string]bool{}
 				}
 				for _, r := range a.Reveal {
 					nr[r] = true
@@ -1642,6 +1751,9 @@ func (ex *Exec) ghostAsserts(states []*State, anchor string, pos token.Pos, node
 			ex.oblige(s, "assert", fmt.Sprintf("assert@%s#L%d.%d", anchor, a.Line, i+1), g, node)
 			ex.lemmas, ex.reveal = savedLem, savedRev
 			ex.obls[len(ex.obls)-1].Note = a.Text
+			if a.Timeout > 0 {
+				ex.obls[len(ex.obls)-1].Timeout = a.Timeout
+			}
 			if !g.IsFalse() {
 				s.assume(g)
 			}
@@ -1691,7 +1803,9 @@ func (ex *Exec) execFor1(st *State, n *ast.ForStmt, ord int) []*State {
 				panic(abortPath{})
 			}
 			ex.loopOrd = savedOrd // nested loops keep stable ordinals across iterations
+			basePC := len(s.pc)
 			outs := ex.execBlock([]*State{s}, n.Body.List)
+			var cont []*State
 			for _, o := range outs {
 				switch o.ctl {
 				case ctlBreak:
@@ -1699,13 +1813,19 @@ func (ex *Exec) execFor1(st *State, n *ast.ForStmt, ord int) []*State {
 					exits = append(exits, o)
 				case ctlContinue, ctlNormal:
 					o.ctl = ctlNormal
-					if n.Post != nil {
-						ex.execStmt(o, n.Post)
-					}
-					next = append(next, o)
+					cont = append(cont, o)
 				default:
 					exits = append(exits, o)
 				}
+			}
+			if m := ex.mergeMany(cont, basePC); m != nil {
+				cont = []*State{m}
+			}
+			for _, o := range cont {
+				if n.Post != nil {
+					ex.execStmt(o, n.Post)
+				}
+				next = append(next, o)
 			}
 		}
 		work = next
@@ -2029,6 +2149,8 @@ func (ex *Exec) execRange1(st *State, n *ast.RangeStmt, ord int) []*State {
 				assign(s, n.Value, elemAt(IntLit(int64(i))))
 			}
 			ex.loopOrd = savedOrd
+			basePC := len(s.pc)
+			var cont []*State
 			for _, o := range ex.execBlock([]*State{s}, n.Body.List) {
 				switch o.ctl {
 				case ctlBreak:
@@ -2036,11 +2158,15 @@ func (ex *Exec) execRange1(st *State, n *ast.RangeStmt, ord int) []*State {
 					exits = append(exits, o)
 				case ctlContinue, ctlNormal:
 					o.ctl = ctlNormal
-					next = append(next, o)
+					cont = append(cont, o)
 				default:
 					exits = append(exits, o)
 				}
 			}
+			if m := ex.mergeMany(cont, basePC); m != nil {
+				cont = []*State{m}
+			}
+			next = append(next, cont...)
 		}
 		work = next
 	}
